@@ -200,8 +200,61 @@ func UnmarshalValue(span herrors.Span, self interface{}) (*Value, *VmInterrupt) 
 	}
 }
 
+// Reports the first value nested in `self` which has no JSON form (ranges, functions, iterators, ...):
+// `MarshalValue` cannot report an error, so the members which serialise a value check it first.
+func findJsonUnencodable(self Value) (Value, bool) {
+	switch self := self.(type) {
+	case ValueString, ValueInt, ValueFloat, ValueBool, ValueBuiltinFunction, ValueNull, nil:
+		return nil, false
+	case ValueAnyObject:
+		for _, field := range self.FieldsInternal {
+			if field == nil {
+				continue
+			}
+			if culprit, found := findJsonUnencodable(*field); found {
+				return culprit, true
+			}
+		}
+		return nil, false
+	case ValueObject:
+		for _, field := range self.FieldsInternal {
+			if field == nil {
+				continue
+			}
+			if culprit, found := findJsonUnencodable(*field); found {
+				return culprit, true
+			}
+		}
+		return nil, false
+	case ValueList:
+		for _, item := range *self.Values {
+			if culprit, found := findJsonUnencodable(*item); found {
+				return culprit, true
+			}
+		}
+		return nil, false
+	case ValueOption:
+		if self.IsSome() {
+			return findJsonUnencodable(*self.Inner)
+		}
+		return nil, false
+	default:
+		return self, true
+	}
+}
+
+func jsonUnencodableInterrupt(self Value, span herrors.Span) *VmInterrupt {
+	if culprit, found := findJsonUnencodable(self); found {
+		return NewVMFatalException(fmt.Sprintf("Cannot encode value of type '%v' to JSON", culprit.Kind()), Vm_JsonErrorKind, span)
+	}
+	return nil
+}
+
 func MarshalToString(self Value) *Value {
 	return NewValueBuiltinFunction(func(executor Executor, cancelCtx *context.Context, span herrors.Span, args ...Value) (*Value, *VmInterrupt) {
+		if i := jsonUnencodableInterrupt(self, span); i != nil {
+			return nil, i
+		}
 		// TODO: fail if skipNull is true?
 		marshaled, _ := MarshalValue(self, false)
 		output, jsonErr := json.Marshal(marshaled)
@@ -214,6 +267,9 @@ func MarshalToString(self Value) *Value {
 
 func MarshalIndentToString(self Value) *Value {
 	return NewValueBuiltinFunction(func(_ Executor, cancelCtx *context.Context, span herrors.Span, args ...Value) (*Value, *VmInterrupt) {
+		if i := jsonUnencodableInterrupt(self, span); i != nil {
+			return nil, i
+		}
 		// TODO: fail if skipNull is true?
 		marshaled, _ := MarshalValue(self, false)
 		output, jsonErr := json.MarshalIndent(marshaled, "", "    ")
